@@ -7,6 +7,7 @@ CONSTANTS
     DepOrders = "asc"
     WithMissing = FALSE
     WithAnti = TRUE
+    Profiles = "full"
     Bug = "none"
 INVARIANTS
     TypeOK RdependsMirrorsDepends SetEmptyAtExit NoGhostInGoodCase
